@@ -219,6 +219,15 @@ def op_st():
     )
 
 
+def _random_case(ctx):
+    return st.fixed_dictionaries(
+        {"ops": st.lists(op_st(), min_size=1, max_size=40).map(lambda l: [list(o) for o in l]),
+         "queries": st.booleans()}
+    )
+
+
+HYP = {"random": (_random_case, check_random)}
+
 def run(ctx):
     quick = ctx.tier == "quick"
     n = 5 if quick else 7
@@ -234,4 +243,4 @@ def run(ctx):
         {"ops": st.lists(op_st(), min_size=1, max_size=40).map(lambda l: [list(o) for o in l]),
          "queries": st.booleans()}
     )
-    ctx.hyp(case, lambda c: check_random(ctx, c), 1500 if quick else 60000, salt=1)
+    ctx.hyp_sharded("random", 6000 if quick else 100000, salt=1)
